@@ -11,6 +11,8 @@ def run(tier, only=None):
     quick = tier == "quick"
     rep = report.Report("C16", tier, "model_checking")
     eng = enc.EncEngine("C16", tier)
+    if quick:
+        eng.timeout = 520      # the two-instance mov r64 pairs need 120-300 s depending on the load of the machine
     sks = families.c16_base_families(quick)
     if only:
         sks = [s for s in sks if fnmatch.fnmatch(s.name, only)]
